@@ -20,6 +20,7 @@ package main
 
 import (
 	"fmt"
+	"sync"
 
 	"github.com/utreexo/utreexo"
 )
@@ -48,6 +49,16 @@ func (r *Runner) replayLift(l *Line) lineResult {
 	}
 	r.internLine(l)
 	res := lineResult{insts: 2 * len(liftMs), extra: map[string]int{}}
+	lc := func() {
+		res.calls += longCarry(r.sy, func(props []string, inst, cat, what string, exp, got any) {
+			res.fails = append(res.fails, Fail{Props: props, Inst: inst, Cat: cat, What: what, Exp: exp, Got: got, Step: len(steps) - 1})
+		})
+	}
+	if r.one {
+		lc()
+	} else {
+		longCarryOnce.Do(lc)
+	}
 	last := &l.Step
 	res.nontrivial = len(last.D) > 0 || last.K > 0
 	for mi, M := range liftMs {
@@ -357,4 +368,84 @@ func (r *Runner) replayPrefixRoots(l *Line) lineResult {
 		fail("", "panic", "the library panicked: "+pan, nil, nil, len(steps)-1)
 	}
 	return res
+}
+
+// longCarry (once per run): additions that carry through more than 32 trees.  A verifier state
+// with N = 2^36 - c leaves (36 minus a few opaque roots) receives a few leaves; the expected
+// roots are folded here from the definition (a new leaf is hashed with the root of every
+// trailing one-bit of the leaf count, lowest first), for the roots-only verifier and for a
+// map forest created from the same roots, in one block and leaf by leaf.
+var longCarryOnce sync.Once
+
+func longCarry(sy *Symb, fail func(props []string, inst, cat, what string, exp, got any)) int {
+	calls := 0
+	for _, c := range []uint64{1, 3, 5} {
+		N := uint64(1)<<36 - c
+		var roots []Hash // highest tree first
+		for b := 63; b >= 0; b-- {
+			if N>>uint(b)&1 == 1 {
+				roots = append(roots, sy.H(junkTerm(700+b)))
+			}
+		}
+		adds := make([]Hash, int(c))
+		for i := range adds {
+			adds[i] = sy.H(junkTerm(800 + i))
+		}
+		// reference fold
+		exp := append([]Hash{}, roots...)
+		cnt := N
+		for _, a := range adds {
+			cur := a
+			for h := uint(0); cnt>>h&1 == 1; h++ {
+				top := exp[len(exp)-1]
+				exp = exp[:len(exp)-1]
+				cur = parentOf(top, cur)
+			}
+			exp = append(exp, cur)
+			cnt++
+		}
+		check := func(inst string, got []Hash, n uint64) {
+			ok := n == cnt && len(got) == len(exp)
+			for i := 0; ok && i < len(exp); i++ {
+				ok = got[i] == exp[i]
+			}
+			if !ok {
+				fail([]string{"C01"}, inst, "roots", fmt.Sprintf("%d leaves added to a forest of 2^36-%d leaves (a carry through %d trees): leaf count / roots", c, c, len(roots)), []any{cnt, len(exp)}, []any{n, len(got)})
+			}
+		}
+		for _, oneBlock := range []bool{true, false} {
+			s := utreexo.Stump{Roots: append([]Hash{}, roots...), NumLeaves: N}
+			m := utreexo.NewMapPollardFromRoots(append([]Hash{}, roots...), N, false)
+			pan := protect(func() {
+				groups := [][]Hash{adds}
+				if !oneBlock {
+					groups = nil
+					for _, a := range adds {
+						groups = append(groups, []Hash{a})
+					}
+				}
+				for _, g := range groups {
+					if _, err := s.Update(nil, g, utreexo.Proof{}); err != nil {
+						fail([]string{"C01"}, "stump", "error", "Stump.Update refused additions: "+err.Error(), nil, nil)
+						return
+					}
+					lv := make([]utreexo.Leaf, len(g))
+					for i := range g {
+						lv[i] = utreexo.Leaf{Hash: g[i]}
+					}
+					if err := m.Modify(lv, nil, utreexo.Proof{}); err != nil {
+						fail([]string{"C01"}, "map.fromroots", "error", "Modify refused additions: "+err.Error(), nil, nil)
+						return
+					}
+				}
+				check("stump", s.Roots, s.NumLeaves)
+				check("map.fromroots", m.GetRoots(), m.GetNumLeaves())
+			})
+			calls += 2
+			if pan != "" {
+				fail([]string{"C01"}, "", "panic", "additions with a long carry panicked: "+pan, nil, nil)
+			}
+		}
+	}
+	return calls
 }
